@@ -5,6 +5,7 @@ import (
 	"go/constant"
 	"go/token"
 	"go/types"
+	"strconv"
 	"strings"
 
 	"verif/checker/eng"
@@ -567,6 +568,57 @@ func c12Bind(c *cx) {
 		okArg := len(cl.Args) == 1 && eng.Glob("*.Bind.JID", f.Norm(cl.Args[0], &pt))
 		c.r.Check("C12.5", f, "UpdateAddr argument", "P: the session reports the address the server assigned", cl.Pos(), okArg, "argument is "+f.Norm(cl.Args[0], &pt))
 	}
+	nOwn := 0
+	// C12.7 the reply's verdict comes from its own attributes: encoding/xml
+	// fills the embedded stanza.IQ's ID and Type from every attribute with that
+	// local name, whatever its namespace (x:id, x:type), the last one winning.
+	// Between the DecodeElement of the reply and UpdateAddr, both fields are
+	// re-assigned from attr.Own (the element's unqualified attributes).
+	for _, cl := range f.Calls("xmpp.Session.UpdateAddr") {
+		pt, _ := g.Where(cl)
+		for _, dec := range f.Calls("encoding/xml.Decoder.DecodeElement") {
+			dp, ok := g.Where(dec)
+			if !ok || !g.Reachable(g.After(dp), pt, nil, nil) || len(dec.Args) != 2 {
+				continue
+			}
+			targ := ast.Unparen(dec.Args[0])
+			if u, isAddr := targ.(*ast.UnaryExpr); isAddr {
+				targ = u.X
+			}
+			target := rootLocal(f, targ)
+			if target == nil {
+				continue
+			}
+			for _, fld := range []struct{ field, attr string }{{"ID", "id"}, {"Type", "type"}} {
+				fld := fld
+				isOwn := func(q eng.Point, nd ast.Node) bool {
+					as, ok := nd.(*ast.AssignStmt)
+					if !ok {
+						return false
+					}
+					for i, l := range as.Lhs {
+						sel, ok := ast.Unparen(l).(*ast.SelectorExpr)
+						if !ok || sel.Sel.Name != fld.field || rootLocal(f, sel.X) != target {
+							continue
+						}
+						var rhs string
+						if len(as.Rhs) == len(as.Lhs) {
+							rhs = f.Norm(as.Rhs[i], &q)
+						} else if len(as.Rhs) == 1 {
+							rhs = f.Norm(as.Rhs[0], &q) + "#" + strconv.Itoa(i)
+						}
+						if eng.Glob("*internal/attr.Own(*.Attr,\""+fld.attr+"\")#1*", rhs) {
+							return true
+						}
+					}
+					return false
+				}
+				c.r.Check("C12.7", f, "reply "+fld.attr+" taken from the reply's own attribute", "E-dec: between decoding the bind reply and acting on it, the "+fld.field+" field is re-assigned from attr.Own(start.Attr, \""+fld.attr+"\"): an attribute of a foreign namespace with the same local name does not decide", dec.Pos(), g.MustPassBefore(g.After(dp), pt, isOwn, nil), "the "+fld.field+" that is compared is the one encoding/xml filled in: x:"+fld.attr+" from any namespace overrides the reply's own "+fld.attr)
+				nOwn++
+			}
+		}
+	}
+	c.r.Floor("C12.7", "own-attribute re-assignments of the bind reply", nOwn, 2)
 	// the request id in the literal is the one compared
 	for _, cl := range f.WalkLits("stanza.IQ") {
 		pt, _ := g.Where(cl)
